@@ -237,7 +237,16 @@ def judge(ctx, q, final_packaged, gap_ok, info):
 
     key = astx.dump_fields(q)
     try:
-        out = simplify_chained_calls().visit(astx.clone(q))
+        # (every third case: ONE simplifier object is used for query after query, as a back end that keeps its transformer does)
+        import threading as _thr
+
+        _keep = _thr.current_thread().__dict__.setdefault("_verif_kept_simplifier", {})
+        if ctx.evaluations % 3 == 1:
+            _simp = _keep.setdefault("s", simplify_chained_calls())
+            ctx.count("cases-simplified-by-a-reused-simplifier-object")
+        else:
+            _simp = simplify_chained_calls()
+        out = _simp.visit(astx.clone(q))
     except Exception as e:
         ctx.count("skipped:simplifier-raised:" + type(e).__name__)  # totality is C18's
         return
